@@ -521,13 +521,195 @@ impl Family for MetaHistories {
     }
 }
 
+/// Metadata over the life of prepared statements: PREPARE (two ids, colliding column lists, the
+/// same id prepared again with another list), long data, EXECUTE answered with the declared list
+/// or with another one, CLOSE, COM_FIELD_LIST and a text resultset in between - every sequence up
+/// to the depth. Each header and PREPARE reply must equal what the shim declares at that moment.
+#[derive(Clone, Copy, Debug, PartialEq)]
+enum LifeEv {
+    /// PREPARE answered with (statement id, column list index); always one parameter
+    Prep(u32, usize),
+    /// EXECUTE answered with the list the statement declared
+    Exec(u32),
+    /// EXECUTE of statement 1 answered with another list
+    ExecOther(usize),
+    Long(u32),
+    Close(u32),
+    FieldList,
+    Rs(usize),
+}
+
+struct StmtLifecycles {
+    depth: usize,
+}
+impl StmtLifecycles {
+    fn evs() -> Vec<LifeEv> {
+        vec![
+            LifeEv::Prep(1, 0),
+            LifeEv::Prep(1, 6),
+            LifeEv::Prep(2, 1),
+            LifeEv::Exec(1),
+            LifeEv::Exec(2),
+            LifeEv::ExecOther(10),
+            LifeEv::Long(1),
+            LifeEv::Long(2),
+            LifeEv::Close(1),
+            LifeEv::Close(2),
+            LifeEv::FieldList,
+            LifeEv::Rs(4),
+        ]
+    }
+    fn hist(&self, idx: u64) -> Vec<LifeEv> {
+        let e = Self::evs();
+        digits(idx, &vec![e.len() as u64; self.depth]).iter().map(|i| e[*i as usize]).collect()
+    }
+}
+impl Family for StmtLifecycles {
+    fn ambient(&self, idx: u64) -> u64 {
+        crate::engine::rot(idx)
+    }
+    fn name(&self) -> String {
+        format!("statement-lifecycle-metadata-depth-{}", self.depth)
+    }
+    fn len(&self) -> u64 {
+        (Self::evs().len() as u64).pow(self.depth as u32)
+    }
+    fn run(&self, idx: u64, st: &mut Stats) -> Result<(), Violation> {
+        let h = self.hist(idx);
+        let pal = palette();
+        let ppal = param_palette();
+        // what each statement declared (None = not open) and whether long data is pending
+        let mut open: [Option<usize>; 3] = [None; 3];
+        let mut pending = [false; 3];
+        let mut cmds = Vec::new();
+        let mut behaviours: Vec<Behavior> = Vec::new();
+        let mut want: Vec<Option<usize>> = Vec::new(); // list expected in the reply's header
+        // a history that does not end in a metadata-bearing exchange repeats a shorter one
+        if !matches!(h.last(), Some(LifeEv::Prep(..)) | Some(LifeEv::Exec(_)) | Some(LifeEv::ExecOther(_)) | Some(LifeEv::Rs(_)) | Some(LifeEv::FieldList)) {
+            st.skipped += 1;
+            return Ok(());
+        }
+        for ev in &h {
+            match *ev {
+                LifeEv::Prep(id, c) => {
+                    cmds.push(ClientCmd::new(with_byte(COM_STMT_PREPARE, b"p")));
+                    behaviours.push(Behavior::PrepReply { id, params: ppal[1].clone(), cols: pal[c].clone() });
+                    open[id as usize] = Some(c);
+                    pending[id as usize] = false;
+                    want.push(Some(c));
+                }
+                LifeEv::Exec(_) | LifeEv::ExecOther(_) => {
+                    let (id, c) = match *ev {
+                        LifeEv::Exec(id) => (id, open[id as usize]),
+                        LifeEv::ExecOther(c) => (1, open[1].map(|_| c)),
+                        _ => unreachable!(),
+                    };
+                    let c = match c {
+                        Some(c) => c,
+                        None => {
+                            st.skipped += 1; // executing a statement that is not open is C10's subject
+                            return Ok(());
+                        }
+                    };
+                    let long = pending[id as usize];
+                    pending[id as usize] = false;
+                    let blk = exec_block(
+                        &[ExecParam {
+                            ty: 0xfd,
+                            unsigned: false,
+                            wire: if long { None } else { Some(vec![1, b'v']) },
+                            long,
+                        }],
+                        true,
+                    );
+                    cmds.push(ClientCmd::new(cmd_execute(id, 0, 1, &blk)));
+                    behaviours.push(Behavior::Prog(Arc::new(vec![WOp::Start(pal[c].clone()), WOp::Finish])));
+                    want.push(Some(c));
+                }
+                LifeEv::Long(id) => {
+                    if open[id as usize].is_none() {
+                        st.skipped += 1;
+                        return Ok(());
+                    }
+                    pending[id as usize] = true;
+                    cmds.push(ClientCmd::new(cmd_long(id, 0, b"chunk")));
+                    want.push(None);
+                }
+                LifeEv::Close(id) => {
+                    open[id as usize] = None;
+                    pending[id as usize] = false;
+                    cmds.push(ClientCmd::new(cmd_close(id)));
+                    want.push(None);
+                }
+                LifeEv::FieldList => {
+                    cmds.push(ClientCmd::new(with_byte(COM_FIELD_LIST, b"t\0")));
+                    want.push(None);
+                }
+                LifeEv::Rs(c) => {
+                    cmds.push(q(b"rs"));
+                    behaviours.push(Behavior::Prog(Arc::new(vec![WOp::Start(pal[c].clone()), WOp::Finish])));
+                    want.push(Some(c));
+                }
+            }
+        }
+        st.nontrivial += 1;
+        st.bump("statement_lifecycle_histories");
+        cmds.push(ping());
+        let conv = Conv::new(cmds);
+        let s = conv.stream();
+        let stream = Arc::new(s.bytes);
+        let mut sim = sim_for(&stream, vec![]);
+        sim.log_ops = false;
+        let mut k = 0usize;
+        let bh = behaviours.clone();
+        let behave = Box::new(move |_: usize, cb: &Cb| match cb {
+            Cb::Prepare(_) | Cb::Query(_) | Cb::Execute { .. } => {
+                let b = bh[k].clone();
+                k += 1;
+                b
+            }
+            _ => Behavior::Silent,
+        });
+        let o = run_conn(sim, ConnCfg::new(behave));
+        st.transitions += h.len() as u64;
+        if let ConnResult::Panic(l, m) = &o.res {
+            return Err(Violation::new(panic_key(l, m), format!("run_on panicked at {}: {}", l, m)));
+        }
+        if !o.res.is_ok() {
+            return Err(Violation::new("result-not-ok", format!("{:?}: run_on returned {}", h, o.res.short())));
+        }
+        let d = decode_all(delivered(&o), &conv, &s.last_seq, conv.cmds.len(), false).map_err(|e| Violation::new("reply-decode", format!("{:?}: {}", h, e)))?;
+        for (i, ev) in h.iter().enumerate() {
+            let r = &d.replies[i];
+            let what = format!("exchange {} of {:?}", i, h);
+            match (ev, want[i], &r[..]) {
+                (LifeEv::Prep(id, _), Some(c), [Unit::PrepareOk { id: gid, params: gp, cols: gc, .. }]) => {
+                    if gid != id {
+                        return Err(Violation::new("statement-id", format!("{}: statement id {} declared, {} decoded", what, id, gid)));
+                    }
+                    check_defs(gp, &ppal[1], &format!("{}: PREPARE parameters", what))?;
+                    check_defs(gc, &pal[c], &format!("{}: PREPARE columns", what))?;
+                }
+                (LifeEv::Exec(_), Some(c), [Unit::ResultSet { cols, end: Ok(_), .. }]) | (LifeEv::ExecOther(_), Some(c), [Unit::ResultSet { cols, end: Ok(_), .. }]) | (LifeEv::Rs(_), Some(c), [Unit::ResultSet { cols, end: Ok(_), .. }]) => check_defs(cols, &pal[c], &what)?,
+                (LifeEv::Long(_), None, []) | (LifeEv::Close(_), None, []) => {}
+                (LifeEv::FieldList, None, _) => {}
+                (_, _, other) => return Err(Violation::new("reply-shape", format!("{}: {} unit(s): {}", what, other.len(), format!("{:?}", other).chars().take(120).collect::<String>()))),
+            }
+        }
+        Ok(())
+    }
+    fn describe(&self, idx: u64) -> J {
+        json!(self.hist(idx).iter().map(|e| format!("{:?}", e)).collect::<Vec<_>>())
+    }
+}
+
 pub fn build(quick: bool) -> Check {
     let flags = flag_words();
     let nf = flags.len();
     Check {
         id: "C09",
         level: "model_checking",
-        rule: format!("column descriptors declared through start() and StatementMetaWriter::reply on the real run_on, decoded by refwire and by mysql_common's Column/StmtPacket: every column count 0..{} (and 65535 in thorough) with table names cycling A, tbl_b, A, \"\", multibyte; table/column name lengths {{0,1,250,251,252,65535,65536,70000}}^2 in ASCII and 2-byte UTF-8; lists of 70..4000 definitions totalling 100 KiB..400 KiB; all {} column types x all {} representable flag words; statement ids {{0,1,255,256,65535,65536,2^31,2^32-1}} x (parameters, columns) in {{0,1,2,250,251,1000}}^2. Histories: every sequence of <= 3 (thorough: 4) metadata-bearing exchanges on one connection over 40 events (text and binary resultset headers, chained headers, PREPARE replies reusing an id with other counts) built from 12 column lists that collide (same table+name concatenation split differently; lists differing only in flags, type, order or one name; the empty list). Oracle: count, order, table, name, type, flags, id and both counts equal what was declared; EOF placement per the 4.1 protocol without DEPRECATE_EOF. Non-trivial = beyond the one-byte length class.", 1000, all_types().len(), nf),
+        rule: format!("column descriptors declared through start() and StatementMetaWriter::reply on the real run_on, decoded by refwire and by mysql_common's Column/StmtPacket: every column count 0..{} (and 65535 in thorough) with table names cycling A, tbl_b, A, \"\", multibyte; table/column name lengths {{0,1,250,251,252,65535,65536,70000}}^2 in ASCII and 2-byte UTF-8; lists of 70..4000 definitions totalling 100 KiB..400 KiB; all {} column types x all {} representable flag words; statement ids {{0,1,255,256,65535,65536,2^31,2^32-1}} x (parameters, columns) in {{0,1,2,250,251,1000}}^2. Histories: every sequence of <= 3 (thorough: 4) metadata-bearing exchanges on one connection over 40 events (text and binary resultset headers, chained headers, PREPARE replies reusing an id with other counts) built from 12 column lists that collide (same table+name concatenation split differently; lists differing only in flags, type, order or one name; the empty list); every sequence of <= 6 (thorough: 7) events over PREPARE (two ids, a re-prepare with another list), long data, EXECUTE answered with the declared or another list, CLOSE, COM_FIELD_LIST and a text resultset. Oracle: count, order, table, name, type, flags, id and both counts equal what was declared; EOF placement per the 4.1 protocol without DEPRECATE_EOF. Non-trivial = beyond the one-byte length class.", 1000, all_types().len(), nf),
         assumptions: vec!["ColumnFlags can only represent its defined bits; all representable words are covered".into()],
         bounds: json!({"max_columns": if quick {1000} else {65535}, "flag_words": nf}),
         exhaustive: true,
@@ -542,7 +724,12 @@ pub fn build(quick: bool) -> Check {
             Box::new(MetaHistories { evs: meta_events(), depth: 1 }),
             Box::new(MetaHistories { evs: meta_events(), depth: 2 }),
             Box::new(MetaHistories { evs: meta_events(), depth: if quick { 3 } else { 4 } }),
+            Box::new(StmtLifecycles { depth: 3 }),
+            Box::new(StmtLifecycles { depth: 4 }),
+            Box::new(StmtLifecycles { depth: 5 }),
+            Box::new(StmtLifecycles { depth: 6 }),
+            Box::new(StmtLifecycles { depth: if quick { 2 } else { 7 } }),
         ],
-        required: vec!["aftermath_recovered", "metadata_histories", "more_than_250_columns", "names_longer_than_250", "type_flag_pairs", "wide_statement_ids", "bulky_lists"],
+        required: vec!["aftermath_recovered", "metadata_histories", "statement_lifecycle_histories", "more_than_250_columns", "names_longer_than_250", "type_flag_pairs", "wide_statement_ids", "bulky_lists"],
     }
 }
